@@ -2185,18 +2185,48 @@ def emit_stage(ctx, vlib) -> None:
     for nm, src, coq, ip, all_ in mods:
         its = "[" + "; ".join([EMIT_HEADER_COQ] + coq) + "]"
         # stubgen on FILES in --parse-only mode never learns __all__ (it comes from the import or the semantic analysis)
-        exprs.append(f"(shows (emit_module {cfg_coq(ip, None)} {its}), shows (emit_module {cfg_coq(ip, all_)} {its}))")
+        env = '["staticmethod"; "property"; "overload"; "dcall"]'
+        exprs.append(f"(shows (emit_module {cfg_coq(ip, None)} {its}), shows (emit_module {cfg_coq(ip, all_)} {its}), "
+                     f"no_redefinition_guard {its}, refs_guard {cfg_coq(ip, None)} {env} {its}, refs_guard {cfg_coq(ip, all_)} {env} {its}, "
+                     f"String.concat \",\" (overload_names {its}))")
     res = ctx.eval_cases("emit", EMIT_COQ_HEADER, exprs, per_file=100)
     if res is None:
         return
     bad = 0
+    n_guard = {"modules": 0, "no_redefinition_guard": 0, "refs_guard_parse": 0, "refs_guard_semantic": 0}
     for (nm, src, coq, ip, all_), r in zip(mods, res):
-        mm = re.match(r'^\("([^"]*)", "([^"]*)"\)$', r.strip())
+        mm = re.match(r'^\("([^"]*)", "([^"]*)", (true|false), (true|false), (true|false), "([^"]*)"\)$', r.strip())
         if not mm:
             ctx.broke("C", "cannot read emit model output", r[:200])
             return
+        g_nodup = mm.group(3) == "true"
+        ovl = set(mm.group(6).split(",")) - {""}
+        n_guard["modules"] += 1
+        n_guard["no_redefinition_guard"] += g_nodup
         for mode in ("parse", "semantic"):
             model = mm.group(1) if mode == "parse" else mm.group(2)
+            g_refs = (mm.group(4) if mode == "parse" else mm.group(5)) == "true"
+            n_guard["refs_guard_" + mode] += g_refs
+            # the guarded theorems, checked on the real stub
+            stub0 = stubs.get((nm, mode))
+            if stub0 is not None:
+                tb = [x for x in ast.parse(stub0).body]
+                tops = [x.name if isinstance(x, (ast.FunctionDef, ast.ClassDef)) else (x.target.id if isinstance(x, ast.AnnAssign) and isinstance(x.target, ast.Name)
+                        else (x.targets[0].id if isinstance(x, ast.Assign) and isinstance(x.targets[0], ast.Name) else None)) for x in tb]
+                tops = [t for t in tops if t and t != "__all__"]
+                if g_nodup:
+                    dups = sorted({t for t in tops if tops.count(t) > 1 and t not in ovl})
+                    if dups:
+                        ctx.violation(f"emit-guarded:unique:{mode}", f"no_redefinition_guard holds but the {mode} stub defines {dups} twice",
+                                      {"kind": "emit", "mode": mode, "source": "\n".join(src), "stub": stub0})
+                if g_refs:
+                    import builtins as _b
+                    used = {d.id for x in tb if isinstance(x, ast.FunctionDef) for d0 in x.decorator_list
+                            for d in [d0.func if isinstance(d0, ast.Call) else d0] if isinstance(d, ast.Name)}
+                    missing = sorted(u for u in used if u not in tops and not hasattr(_b, u) and u not in ("overload",))
+                    if missing:
+                        ctx.violation(f"emit-guarded:refs:{mode}", f"refs_guard holds but the {mode} stub uses undefined decorator(s) {missing}",
+                                      {"kind": "emit", "mode": mode, "source": "\n".join(src), "stub": stub0})
             stub = stubs.get((nm, mode))
             if stub is None:
                 ctx.broke("C", "no stub for an emit module", f"{nm} {mode}")
@@ -2214,7 +2244,8 @@ def emit_stage(ctx, vlib) -> None:
     ctx.add("traces_validated_against_impl", 2 * len(mods))
     ctx.cov["C_emit_modules"] = len(mods)
     ctx.cov["C_emit_disagreements"] = bad
-    ctx.log(f"C: {len(mods)} modules of the Emit.v language x 2 modes (names, kinds, order, nesting, decorators of the stub), {bad} disagreements")
+    ctx.cov["C_emit_guard"] = n_guard      # how often the hypotheses of definitions_unique_guarded / references_defined_guarded hold
+    ctx.log(f"C: {len(mods)} modules of the Emit.v language x 2 modes (names, kinds, order, nesting, decorators of the stub), {bad} disagreements; guards hold: {n_guard}")
 
 
 def run(ctx) -> None:
